@@ -90,6 +90,10 @@ _CANON = re.compile(r'^bytes=((\d+)-(\d*)|-(\d+))(,.*)?$', re.S)
 def model_range(header, n):
     """-> ('206', start, end_inclusive) | ('416',) | ('lenient',)"""
     m = _CANON.match(header)
+    if header.startswith('bytes='):
+        first_spec = header[6:].split(',')[0].strip()
+        if first_spec and '-' not in first_spec:
+            return ('not_a_range',)         # no dash: under no reading does the first element denote a range, so there is no slice a 206 could describe
     if not m or not header.isascii():
         return ('lenient',)
     rest = m.group(5)
@@ -151,6 +155,8 @@ def judge_get(case, r, n, data, buf, what):
     m = model_range(rng, n)
     if r.code not in (206, 416):
         raise CheckFailure(f'{what}: Range {rng!r} on a {n}-byte file answered {r.status!r} (expected 206 or 416)')
+    if m[0] == 'not_a_range' and r.code != 416:
+        raise CheckFailure(f'{what}: the first element of Range {rng!r} has no dash (it names no range) but the answer is {r.status!r} {r.header("Content-Range")!r}')
     if m[0] == '416' and r.code != 416:
         raise CheckFailure(f'{what}: Range {rng!r} is unsatisfiable for a {n}-byte file but the answer is {r.status!r} {r.header("Content-Range")!r}')
     if m[0] == '206' and r.code != 206:
@@ -302,6 +308,9 @@ def run(ctx):
                 for sp in specs:
                     for buf in (1, 4):
                         ctx.guarded(check_case, {'n': n, 'buf': buf, 'mtime': T0 + 5, 'range': 'bytes=' + sp})
+            for n in (0, 1, 10, 50):
+                for rng in ('bytes=5', 'bytes=0', 'bytes=42,50-60', 'bytes= 7 ', 'bytes=9', 'bytes=3,', 'bytes=1 2', 'bytes=07', 'bytes=5,0-1', 'bytes=0--0', 'bytes=4-', 'bytes=-4'):
+                    ctx.guarded(check_case, {'n': n, 'buf': 8, 'mtime': T0 + 5, 'range': rng})
             for frac in (0, 0.5):
                 for d in (-7200, -2, -1, 0, 1, 2, 7200):
                     for style in STYLES:
